@@ -73,7 +73,9 @@ def main():
                     shutil.copy(os.path.join(d, "patch.diff"), sd)
                     shutil.copy(os.path.join(d, demo[0]), os.path.join(sd, "demo_test.go"))
                     meta = json.load(open(os.path.join(d, "meta.json")))
-                    meta["property"] = pid[:3]
+                    meta["property"] = meta.get("property") if pid.startswith("X") else pid[:3]
+                    if meta.get("also_breaks"):
+                        meta["checks"] = [meta["property"]] + [c for c in meta["also_breaks"] if c != meta["property"]]
                     meta["demo_location"] = "%s/zz_seed_demo_test.go" % tgt
                     meta["verified_by_integrator"] = dict(res, how="fresh worktree of /repo HEAD; `git apply patch.diff`; `go test -vet=off -count=1 %s` passes; demo copied to %s fails with and passes without the change" % (PKGS, meta["demo_location"]))
                     json.dump(meta, open(os.path.join(sd, "meta.json"), "w"), indent=1)
